@@ -191,7 +191,10 @@ impl<C: Cfg> World<C> {
                 let rop = self.plan_range(ch, op == OP_SPLICE, hist, v, w);
                 self.do_range(&rop, tr);
             }
-            OP_CLONE => self.do_clone(v, w, tr),
+            OP_CLONE => {
+                let how = ch.pick(5);
+                self.do_clone(v, w, how, tr);
+            }
             OP_CLONE_EMPTY => {
                 let fls = C::M::flavours(C::T::SIZE);
                 let k = ch.pick(fls.len() as u32 + 1) as usize;
@@ -311,6 +314,7 @@ impl<C: Cfg> World<C> {
             repl_len: 0,
             wa: 0,
             lie: 0,
+            skip: None,
         };
         let item_sinks: &[ItemSink] = if allow_forget { &[ItemSink::Drop, ItemSink::Downcast, ItemSink::MovePush, ItemSink::Forget] } else { &[ItemSink::Drop, ItemSink::Downcast, ItemSink::MovePush] };
         if hist {
@@ -374,6 +378,9 @@ impl<C: Cfg> World<C> {
                 op.sinks.push(item_sinks[ch.pick(item_sinks.len() as u32) as usize]);
             }
             op.forget_iter = allow_forget && ch.pick(4) == 0;
+            if ch.pick(5) == 0 {
+                op.skip = Some(ch.pick(n as u32 + 2) as usize);
+            }
             if splice {
                 op.repl_kind = REPL_KINDS[ch.pick(4) as usize];
                 op.repl_len = ch.pick(6) as usize;
@@ -386,8 +393,31 @@ impl<C: Cfg> World<C> {
             return op;
         }
         // exhaustive: three sub-sweeps (sum, not product)
-        let mode = ch.pick(if splice { if self.spec.allow_lies { 4 } else { 3 } } else { 2 });
+        let n_modes = if splice { if self.spec.allow_lies { 4 } else { 3 } } else { 2 };
+        let m = ch.pick(n_modes + 1);
+        let mode = if m == n_modes { 9 } else { m };
         match mode {
+            9 => {
+                // every valid range x nth(k), k = 0..=n+1, then nothing / next / next_back / both
+                let a = ch.pick(len as u32 + 1) as usize;
+                let b = a + ch.pick((len - a) as u32 + 1) as usize;
+                op.x = a;
+                op.y = b;
+                op.typed = ch.flip();
+                let n = b - a;
+                op.skip = Some(ch.pick(n as u32 + 2) as usize);
+                op.calls = match ch.pick(4) {
+                    1 => vec![false],
+                    2 => vec![true],
+                    3 => vec![true, false],
+                    _ => Vec::new(),
+                };
+                op.sinks = vec![ItemSink::Drop; op.calls.len()];
+                op.forget_iter = allow_forget && ch.flip();
+                if splice {
+                    op.repl_len = ch.pick(3) as usize;
+                }
+            }
             0 => {
                 // every form x every pair of bound values around the boundaries and at usize::MAX
                 op.form = ch.pick(N_FORMS);
@@ -612,7 +642,7 @@ impl<C: Cfg> World<C> {
             }
             if !self.dead() && !self.model[s].is_empty() {
                 if let Some(o) = other {
-                    let rop = RangeOp { v: s, form: 2, x: 0, y: 1, typed: false, calls: vec![], sinks: vec![], w: o, forget_iter: false, splice: false, repl_kind: ReplKind::Wrapper, repl_len: 0, wa: 0, lie: 0 };
+                    let rop = RangeOp { v: s, form: 2, x: 0, y: 1, typed: false, calls: vec![], sinks: vec![], w: o, forget_iter: false, splice: false, repl_kind: ReplKind::Wrapper, repl_len: 0, wa: 0, lie: 0, skip: None };
                     self.do_range(&rop, tr);
                     self.check_state("usability-drain");
                 }
@@ -744,12 +774,15 @@ pub fn run_body<C: Cfg>(spec: &Spec, shape: Shape, ch: &mut Ch, tr: &mut String,
             w.setup_slot(1, fl, 0, None);
             w.check_state("setup");
             w.nontrivial = false;
-            let how = ch.pick(nf + 2) as usize;
+            // clone | clone_empty | clone_empty_in(each flavour) | clone_from (4 kinds of destination)
+            let how = ch.pick(nf + 6) as usize;
             if let Some(k) = fault {
                 w.arm_fault(k);
             }
             if how == 0 {
-                w.do_clone(0, 1, tr);
+                w.do_clone(0, 1, 0, tr);
+            } else if how >= nf as usize + 2 {
+                w.do_clone(0, 1, (how - nf as usize - 1) as u32, tr);
             } else if how == 1 {
                 w.do_clone_empty(0, 1, None, tr);
             } else {
@@ -763,7 +796,9 @@ pub fn run_body<C: Cfg>(spec: &Spec, shape: Shape, ch: &mut Ch, tr: &mut String,
                     user_calls = w.disarm_fault();
                 }
                 w.check_state("clone");
-                if !w.dead() && len < 16 {
+                // (two of the four clone_from destinations take no follow-up operation: cost)
+                let follow = how < nf as usize + 2 || matches!(how - nf as usize - 1, 2 | 3);
+                if !w.dead() && len < 16 && follow {
                     // one operation on the original or on the clone; the other one must not change
                     let on_clone = ch.flip();
                     let slots = if on_clone { (1, 0) } else { (0, 1) };
@@ -783,8 +818,13 @@ pub fn run_body<C: Cfg>(spec: &Spec, shape: Shape, ch: &mut Ch, tr: &mut String,
             w.setup_slot(1, fl, fl.fixed_cap().unwrap_or(2).min(2), None);
             w.check_state("setup");
             w.nontrivial = false;
-            // a capacity route before decomposing: none | shrink_to_fit | reserve(3) | pop
-            match ch.pick(4) {
+            // a capacity route before decomposing: none | shrink_to_fit | reserve(3) | pop |
+            // (zero-sized elements, which never allocate) a capacity beyond isize::MAX
+            match ch.pick(5) {
+                4 if C::M::RESIZABLE && C::T::ZST => {
+                    w.do_capacity(CapOp::Reserve, 0, (usize::MAX >> 1) + 7, false, tr);
+                    let _ = write!(tr, "; ");
+                }
                 1 if C::M::RESIZABLE => {
                     w.do_capacity(CapOp::ShrinkToFit, 0, 0, false, tr);
                     let _ = write!(tr, "; ");
